@@ -63,6 +63,11 @@ def run(res, replay=None):
         # 9.7e6): whatever bounds the search for the bracket of a quantile must not be an absolute number of time units
         specs.append({'n_items': [['a', 2]], 'model': {'kind': 'kingman'}, 'pop_sizes': {'a': {'0.0': 2097152.0}},
                       'designed': 'large_time_scale', 'time_scale': 2097152.0})
+    if not replay:
+        # designed: two loci with recombination in ONE deme whose size changes twice (recombination rates do not depend on the population
+        # size: the rate matrix of a later epoch is not a rescaling of the first one)
+        specs.append({'n_items': [['a', 3]], 'model': {'kind': 'kingman'}, 'loci': 2, 'recombination_rate': 1.5,
+                      'pop_sizes': {'a': {'0.0': 1.0, '0.4': 4.0, '1.5': 0.5}}, 'designed': 'two_loci_size_changes'})
     qs_levels = [0.05, 0.5, 0.9, 0.99]
     NS = 4      # number of single-time cdf calls per configuration
     cases = []
